@@ -27,6 +27,7 @@ def errStr : Err → String
   | .assertion => "assertion"
   | .valueError => "value-error"
   | .indexError => "IndexError"
+  | .keyError => "KeyError"
 
 def moduleToJson (m : Mod) : Json :=
   jObj [("comps", jArr (m.components.map compToJson)),
@@ -181,37 +182,37 @@ def qualsOfJson (j : Json) : R Quals :=
     | .null => pure (k, none)
     | _ => pure (k, some (← listOf asStr v))) j
 
-/-- kind "feature": the reported modules of a gene chain as aSModule features -/
+/-- kind "feature": the reported modules of a gene chain as aSModule features, in the order
+    `add_to_record` creates them; domain features and their names come from the model
+    (`geneTables`), nothing is taken over from the implementation -/
 def handleFeature (j : Json) : R Json := do
   let genes0 ← listOf geneOfJson (← fld j "genes")
   let genes := (genes0.zipIdx).map fun (g, i) => { g with index := i }
   let feats ← arrF j "impl_features"
-  -- every domain feature the implementation's record knows, by name
-  let allDoms ← feats.mapM fun f => do
-    let ds ← fld f "domains"
-    listOf (fun d => do
-      return ((⟨← asStr (← idx d 0), ← asStr (← idx d 1), ← asInt (← idx d 2)⟩ : FDomain),
-              (← asInt (← idx d 3)), (← asInt (← idx d 4)))) ds
-  let known (n : String) : Option FDomain := (allDoms.flatten.find? fun d => d.1.name == n).map (·.1)
+  let tables := geneTables genes
+  let allDoms : List FDomain := genes.flatMap fun g => (domainFeatures g.name g.strand g.domains []).map (·.2)
+  let known (n : String) : Option FDomain := allDoms.find? fun d => d.name == n
+  -- spec on the implementation's output: feature domains follow the module's components
+  let mut follows : List Json := []
+  let mut rereads : List Json := []
+  for f in feats do
+    let comps ← listOf compOfJson (← fld f "module_comps")
+    let doms ← listOf (fun d => do return ((← asStr (← idx d 1)), (← asInt (← idx d 3)), (← asInt (← idx d 4))))
+                  (← fld f "domains")
+    follows := follows ++ [toJson (Spec.featureFollows comps doms)]
+    let quals ← qualsOfJson (← fld f "quals")
+    rereads := rereads ++ [match ModFeature.fromBiopython known quals with
+      | .ok g => featureToJson g
+      | .error e => jObj [("err", Json.str (errStr e))]]
   match chain genes with
   | .error e => return jObj [("model", jObj [("err", Json.str (errStr e))])]
   | .ok rs =>
-    let modules := rs.flatMap (·.modules)
-    let mut out : List Json := []
-    for (f, doms) in feats.zip allDoms do
-      let key := doms.map fun d => (d.1.locus, d.2.1, d.2.2)
-      let found := modules.find? fun m => (m.components.map fun c => (c.locus, c.start, c.stop)) == key
-      let quals ← qualsOfJson (← fld f "quals")
-      let reread := match ModFeature.fromBiopython known quals with
-        | .ok g => featureToJson g
-        | .error e => jObj [("err", Json.str (errStr e))]
-      let model := match found with
-        | none => jObj [("err", Json.str "no such module in the model")]
-        | some m => match m.toFeature (doms.map (·.1)) with
-          | .ok g => (featureToJson g).setObjVal! "quals" (qualsToJson g.toBiopython)
-          | .error e => jObj [("err", Json.str (errStr e))]
-      out := out ++ [jObj [("model", model), ("reread", reread)]]
-    return jObj [("model", jObj [("features", jArr out), ("count", toJson modules.length)])]
+    let model := rs.flatMap fun r => r.modules.map fun m =>
+      match m.report tables r.name with
+      | .ok g => (featureToJson g).setObjVal! "quals" (qualsToJson g.toBiopython)
+      | .error e => jObj [("err", Json.str (errStr e))]
+    return jObj [("model", jObj [("features", jArr model), ("rereads", jArr rereads)]),
+                 ("spec", jObj [("follows", jArr follows)])]
 
 def handle (j : Json) : R Json := do
   match (← strF j "kind") with
